@@ -79,6 +79,8 @@ fn run(routine: &str, rest: &[String]) -> String {
         "spinner_ticks" => public::spinner_ticks(rest),
         "pos_concurrent" => public::pos_concurrent(rest),
         "multi_move" => public::multi_move(rest),
+        "multi_life" => public::multi_life(rest),
+        "multi_movecursor" => public::multi_movecursor(rest),
         "multi_bottom" => bar::multi_bottom(rest),
         "multi_overflow" => bar::multi_overflow(rest),
         "bar_reuse" => bar::bar_reuse(rest),
